@@ -6,6 +6,7 @@ the pools, styles and single defects from catalogues).  What the right reading
 of those bytes is, is decided by Reader.tla (ReadFile) in TLC, never here.
 """
 import json
+import re
 
 from harness import pools
 
@@ -35,7 +36,9 @@ class Style(object):
         self.hdr_nl = b'\n' if plain else rng.choice([b'\n', b'\n', b'\r\n'])
         self.blank_p = 0.0 if plain else rng.choice([0.0, 0.3, 0.6])
         self.drop_p = 0.0 if plain else rng.choice([0.0, 0.5, 1.0])
-        self.json_style = 'pretty' if plain else rng.choice(['pretty', 'compact', 'unsorted', 'spaced'])
+        self.json_style = 'pretty' if plain else rng.choice(['pretty', 'compact', 'unsorted', 'spaced', 'escaped'])
+        self.zeros_p = 0.0 if plain else rng.choice([0.0, 0.0, 0.4])        # integers with leading zeros
+        self.tail = b'' if plain else rng.choice([b'', b'', b'', b'#.cha', b'garbage without newline', b'#..file: x='])
         self.trailing_blank = 0 if plain else rng.choice([0, 0, 1, 2])
         self.unknown_p = 0.0
 
@@ -70,7 +73,12 @@ def json_text(v, style, rng):
             rng.shuffle(ks)
             v = {k: v[k] for k in ks}
         return json.dumps(v, indent=2, ensure_ascii=False)
-    return json.dumps(v, indent=1, separators=(' , ', ' : '), ensure_ascii=False)
+    if style.json_style == 'spaced':
+        return json.dumps(v, indent=1, separators=(' , ', ' : '), ensure_ascii=False)
+    # 'escaped': every non-ASCII character escaped with UPPER-case hex, "/" escaped, padded with whitespace
+    txt = json.dumps(v, separators=(', ', ':\t'), sort_keys=False)
+    txt = re.sub(r'\\u([0-9a-f]{4})', lambda m: '\\u' + m.group(1).upper(), txt).replace('/', '\\/')
+    return '\n \t' + txt + '  \r\n'
 
 
 def build_file(ids, rng, style=None, encs=None, defect=None, defect_at=None, unknown=None,
@@ -254,11 +262,14 @@ def build_file(ids, rng, style=None, encs=None, defect=None, defect_at=None, unk
             for (si, pos, k, v) in unknown:
                 if si == n:
                     items.insert(min(pos, len(items)), (k, v))
+        if style.zeros_p:
+            items = [(k, ('00%s' % v) if (isinstance(v, int) and rng.random() < style.zeros_p) else v) for k, v in items]
         ostr = ', '.join('%s=%s' % kv for kv in items)
         out += b'#' + sid.encode('ascii') + b':' + ((b' ' + ostr.encode('ascii')) if ostr else b'') + style.hdr_nl
         out += content
     for _ in range(style.trailing_blank):
         out += rng.choice([b'\n', b'\r\n', b'  \n'])
+    out += style.tail                    # an unterminated last line is not a header line
     return out, {'sections': info, 'defect_applied': applied, 'defect': defect}
 
 
